@@ -12,7 +12,7 @@ the exit status and whether a report is written.
 Oracle: the property text and the documented meaning of the options (--pedantic: undeclared names
 are errors, and wins over --strict; --strict: warnings; --permissive: quiet) evaluated on ledger's
 real output from the harness's list of injected faults (item extents), independently of the model."""
-import os, re, shutil
+import os, re, shutil, time
 from concurrent.futures import ThreadPoolExecutor
 import lib
 
@@ -23,7 +23,8 @@ META = dict(
     level_text='Theorems in coq/Properties/Properties_C12.v state, for all files of any length and include nesting, that the model of instance_t::parse / read_next_directive / the block loops / include_directive writes exactly the concatenation, in file order, of one located message per invalid item (none for a valid item; an invalid item never hides a later one), that the location lies inside the item, that the error count equals the number of messages with include counts added to the parent, that a report is written iff the count is zero, that valid input is silent with status 0, that with several -f files every file is read and every invalid item of every file gets its message (counts summed), that the exit status (main.cc mapping regenerated on every run into coq/Gen/StatusOfCount.v) is non-zero iff the count is positive, and that under --pedantic without --permissive (precedence chain regenerated from session.cc into coq/Gen/CheckingStyle.v) every undeclared account, commodity, tag and (with --check-payees) payee is a counted error whatever else is set, a warning under --strict alone, quiet otherwise. The model is tied to the code by reading thousands of generated journals with 0-512 injected faults (unbalanced, bad date, bad amount, failed assertion, unknown account/commodity/tag/payee, stray and malformed directives; first/last/adjacent/inside includes) under every subset of --strict --pedantic --permissive --check-payees (command line, init file, environment) in both and comparing every message location, include chain, class, line range, count, status and stdout emptiness.',
     level_note='Trusted: Coq kernel; extraction + OCaml driver and the python harness for the correspondence; the translator pattern for the status expression in main.cc. The model receives the classification of each line (which error class parsing it throws) from the harness: that a given malformed date/amount/account is rejected by the date/amount/account code is observed through the correspondence check, not proved. Unknown payees are faults only with --check-payees (ledger documents payee checking as opt-in).',
     design_ref='DESIGN.md section 7 C12, section 3.2 (status table)',
-    assumptions=['an unknown payee counts as invalid under --pedantic only together with --check-payees (documented opt-in)',
+    assumptions=['a declaration or posting written inside `apply account ROOT` (or under --master-account ROOT) names the account ROOT:NAME; commodity, tag and payee directives are not affected by the block',
+                 'an unknown payee counts as invalid under --pedantic only together with --check-payees (documented opt-in)',
                  'indented lines that follow an invalid item without an intervening unindented line count as part of that item',
                  'files end with a newline or with a non-blank last line; lines are shorter than MAX_LINE'],
 )
@@ -138,10 +139,18 @@ class Builder:
     """Generates one case: a forest of files in reading order, tracking what a correct reader
     must know (the running balance of the asserted account over accepted transactions)."""
 
-    def __init__(self, rng, opts):
+    def __init__(self, rng, opts, master=None):
         self.rng = rng
         self.opts = opts                      # dict option -> bool
-        self.bank = 0                         # cents in Assets:Bank over accepted transactions
+        self.bank = {}                        # full name of an asserted account -> cents over accepted transactions
+        # account names are written relative to the innermost `apply account` (below --master-account):
+        # the full name a declaration or a posting resolves to is prefix:...:name
+        self.prefix = [master] if master else []
+        self.declared = set()                 # full names made known by `account` directives so far
+        self.rel_names = list(ACCOUNTS)       # names (as written) that are declared under some prefix
+        self.payees = list(PAYEES)            # declared payees / tags / extra commodities (global, whatever the block)
+        self.tags = ['Known']
+        self.extra_comms = []
         self.nfile = 0
         self.day = 0
         self.nuniq = 0
@@ -150,10 +159,79 @@ class Builder:
 
     def effective(self):
         """defects that are errors under these options"""
-        return [d for d in DEFECTS if doc_reaction(self.opts, d) == 'error']
+        return [d for d in DEFECTS if doc_reaction(self.opts, d) == 'error'
+                and (d != 'balassert' or self.full(BANK) in self.declared)]
 
     def harmless(self):
         return [d for d in DEFECTS if doc_reaction(self.opts, d) != 'error']
+
+    def full(self, name):
+        return ':'.join(self.prefix + [name])
+
+    def valid_accounts(self):
+        """names that, written here, resolve to a declared account"""
+        return [a for a in self.rel_names if self.full(a) in self.declared]
+
+    def undeclared_accounts(self):
+        """names that, written here, resolve to an account nobody declared: misspellings, and names
+        declared only under another prefix (outside / inside an `apply account` block)"""
+        return ([t for t in TYPO_ACCOUNTS if self.full(t) not in self.declared]
+                + [a for a in self.rel_names + [BANK] if self.full(a) not in self.declared] * 2
+                + ['Expenses:Typo%d' % self.uniq()])
+
+    def declare(self, names, shuffle=True):
+        """`account NAME` directives written at the current prefix"""
+        rng = self.rng
+        es = []
+        for a in names:
+            lines = [('account ' + a, ['i', [], 1, []])]
+            if rng.random() < 0.3:
+                lines.append(('    note about %s' % a.replace(':', ' '), ['s']))
+            if rng.random() < 0.1:
+                lines.append(('   ', 'w'))
+            es.append(Entry(lines, tag='decl'))
+            self.declared.add(self.full(a))
+        return es
+
+    def open_block(self):
+        """-> entries: [declarations by full name in front of the block,] `apply account ROOT`,
+        declarations inside the block, and control directives (commodity / tag / payee are global:
+        an enclosing `apply account` does not touch them)"""
+        rng = self.rng
+        root = rng.choice(['Personal', 'Business', 'Joint', 'Sub'])
+        names = rng.sample(ACCOUNTS, rng.choice([4, 5, 6, 8]))
+        if rng.random() < 0.6:
+            names.append(BANK)
+        if rng.random() < 0.5:
+            extra = 'Extra:Thing%d' % self.uniq()      # declared in this block only
+            names.append(extra)
+            self.rel_names.append(extra)
+        if rng.random() < 0.5:
+            names = sorted(names)
+        outside = [a for a in names if rng.random() < 0.25]
+        inside = [a for a in names if a not in outside]
+        es = self.declare(['%s:%s' % (root, a) for a in outside])
+        es.append(Entry([('apply account ' + root, ['i', [], 0, []])], tag='apply'))
+        self.prefix.append(root)
+        es += self.declare(inside)
+        if rng.random() < 0.5:
+            p = 'Vendor %d' % self.uniq()
+            self.payees.append(p)
+            es.append(Entry([('payee ' + p, ['i', [], 1, []])], tag='decl'))
+        if rng.random() < 0.5:
+            t = 'Label%d' % self.uniq()
+            self.tags.append(t)
+            es.append(Entry([('tag ' + t, ['i', [], 1, []])], tag='decl'))
+        if rng.random() < 0.4:
+            c = rng.choice(['CHF', 'GBP', 'SEK'])
+            if c not in self.extra_comms:
+                self.extra_comms.append(c)
+                es.append(Entry([('commodity ' + c, ['i', [], 1, []])], tag='decl'))
+        return es
+
+    def close_block(self):
+        self.prefix.pop()
+        return [Entry([(self.rng.choice(['end apply account', 'end apply account', 'end apply']), ['i', [], 0, []])], tag='apply')]
 
     def new_file(self):
         self.nfile += 1
@@ -178,13 +256,7 @@ class Builder:
         elif rng.random() < 0.5:
             order = list(order)
             rng.shuffle(order)
-        for a in order:
-            lines = [('account ' + a, ['i', [], 1, []])]
-            if rng.random() < 0.3:
-                lines.append(('    note about %s' % a.replace(':', ' '), ['s']))
-            if rng.random() < 0.1:
-                lines.append(('   ', 'w'))
-            es.append(Entry(lines, tag='decl'))
+        es += self.declare(order)
         lines = [('commodity $', ['i', [], 1, []])]
         if rng.random() < 0.5:
             lines.append(('    format $1,000.00', ['s']))
@@ -207,11 +279,18 @@ class Builder:
         d = set(defects)
         if 'commodity' in d or 'tag' in d:
             d.discard('balassert')             # (those transactions stay away from the asserted account)
-        npost = rng.choice([2, 2, 2, 3, 3, 4])
-        accts = rng.sample(ACCOUNTS, npost - 1)
-        can_bank = 'commodity' not in d and 'tag' not in d
+        valid = self.valid_accounts()
+        npost = min(rng.choice([2, 2, 2, 3, 3, 4]), len(valid))
+        accts = rng.sample(valid, npost - 1)
+        altcomm = None
+        if self.extra_comms and 'commodity' not in d and 'balassert' not in d and rng.random() < 0.12:
+            altcomm = rng.choice(self.extra_comms)     # a commodity declared inside some `apply account` block
+        bank_name = self.full(BANK)
+        can_bank = 'commodity' not in d and 'tag' not in d and bank_name in self.declared and not altcomm
+        if not can_bank:
+            d.discard('balassert')
         use_bank = can_bank and (rng.random() < 0.6 or 'balassert' in d)
-        last_acct = BANK if use_bank else rng.choice([a for a in ACCOUNTS if a not in accts])
+        last_acct = BANK if use_bank else rng.choice([a for a in valid if a not in accts])
         cents = [rng.choice([1, 5, 99, 100, 250, 1000, 1234, 99999, rng.randrange(1, 500000)]) * rng.choice([1, 1, 1, -1])
                  for _ in range(npost - 1)]
         last = -sum(cents)
@@ -220,7 +299,7 @@ class Builder:
             last = -sum(cents)
         elide = rng.random() < 0.4 and 'unbal' not in d and 'balassert' not in d
         asserted = use_bank and not elide and ('balassert' in d or rng.random() < 0.6)
-        comm = rng.choice(TYPO_COMMS) if 'commodity' in d else None
+        comm = rng.choice(TYPO_COMMS) if 'commodity' in d else altcomm
 
         def amount_text(c):
             if comm:
@@ -230,7 +309,7 @@ class Builder:
         # whole transaction is added to the journal
         date = self.date()
         hann = []
-        payee = rng.choice(PAYEES)
+        payee = rng.choice(self.payees)
         if 'date' in d:
             date = rng.choice(BAD_DATES)
             hann.append(K_DATE)
@@ -250,7 +329,7 @@ class Builder:
         elif rng.random() < 0.15:
             head += '  ; head note'
         elif rng.random() < 0.05:
-            head += '  ; :Known:'
+            head += '  ; :%s:' % rng.choice(self.tags)
         fin = ([K_UNBAL] if 'unbal' in d else []) + ([A_TAG] if tagname else [])
         lines = [(head, ['i', hann, 1, fin])]
         if tag_at == 'headnote':
@@ -279,16 +358,16 @@ class Builder:
             ann = []
             atext = amount_text(amt)
             if slot.get('account') == j:
-                acct = rng.choice(TYPO_ACCOUNTS + ['Expenses:Typo%d' % self.uniq()])
+                acct = rng.choice(self.undeclared_accounts())
                 ann.append(A_ACCT)
             if slot.get('amount') == j:
                 atext = rng.choice(BAD_AMOUNTS)
                 ann.append(K_AMOUNT)
-            elif comm and not elided:
+            elif comm and not elided and not altcomm:
                 ann.append(A_COMM)
             tail = ''
             if j == npost - 1 and asserted:
-                want = self.bank + amt
+                want = self.bank.get(bank_name, 0) + amt
                 if 'balassert' in d:
                     want += rng.choice([1, -1, 700, -123456])
                     ann.append(A_BAL)
@@ -319,12 +398,13 @@ class Builder:
         e = Entry(lines, faults=faults, tag='xact')
         e.warns = sorted({DCLASS[k] for k in d if doc_reaction(self.opts, k) == 'warning'})
         e.defects = sorted(d)
+        e.prefix = ':'.join(self.prefix)
         # rejected only as a whole (finalize / metadata): its block is still open at its last line
         e.fin_only = bool(faults) and all(k in ('unbal', 'tag') for k in d if doc_reaction(self.opts, k) == 'error')
         if not faults:
             self.valid_xacts += 1
             if use_bank:
-                self.bank += last
+                self.bank[bank_name] = self.bank.get(bank_name, 0) + last
         return e
 
     # -- other items ---------------------------------------------------------------------------
@@ -347,6 +427,10 @@ class Builder:
         if k == 2:
             return Entry([('P %s EUR $1.%02d' % (self.date(), rng.randrange(100)), ['i', [], 0, []])], tag='dir')
         if k == 3:
+            # (`Y` pushes an 'apply year' that nothing closes: inside an `apply account` block the
+            # block's `end apply account` would then be refused, a bare `end apply` would close the year)
+            if len(self.prefix) > getattr(self, 'base_depth', 0):
+                return Entry([('; Y2020', ['i', [], 0, []])], tag='dir')
             return Entry([('Y2020', ['i', [], 0, []])], tag='dir')
         if k == 4:
             a = 'Expenses:Extra%d' % self.uniq()
@@ -422,6 +506,7 @@ def fill_file(b, rng, f, plan, depth, decls=False):
     """plan: list of 'v' (valid item) / 'f' (invalid item) / 'i' (include) in order"""
     if decls:
         f.entries += b.declarations()
+    plan = wrap_blocks(rng, plan, 2 - (len(b.prefix) - b.base_depth))
     prev_faulty = False        # error_flag may still be set (no unindented line since an invalid item)
     if rng.random() < 0.06:
         # an indented line before any head
@@ -436,6 +521,10 @@ def fill_file(b, rng, f, plan, depth, decls=False):
         elif sep < 0.65:
             f.entries.append(b.ws_filler())
         # else: adjacent, no blank line
+        if what in ('A', 'Z'):
+            f.entries += b.open_block() if what == 'A' else b.close_block()
+            prev_faulty = False
+            continue
         if what == 'i':
             child = b.new_file()
             sub = plan_for(rng, rng.choice([0, 1, 2, 3, 5]), rng.choice([0, 0, 1, 1, 2, 3]), depth + 1)
@@ -447,10 +536,10 @@ def fill_file(b, rng, f, plan, depth, decls=False):
             prev_faulty = False
         elif what == 'f':
             f.entries.append(faulty_item(b, rng))
-            prev_faulty = True
+            prev_faulty = bool(f.entries[-1].faults)
         else:
             f.entries.append(valid_item(b, rng))
-            prev_faulty = False
+            prev_faulty = bool(f.entries[-1].faults)
         # indented lines that belong to no block
         if rng.random() < 0.07:
             last = f.entries[-1]
@@ -473,6 +562,17 @@ def fill_file(b, rng, f, plan, depth, decls=False):
         f.entries.append(b.filler())
     if rng.random() < 0.08 and f.entries and f.entries[-1].lines[-1][1] not in ('e', 'w'):
         f.final_newline = False
+
+
+def wrap_blocks(rng, plan, levels):
+    """put an `apply account` ... `end apply account` pair ('A' / 'Z') around a slice of the plan,
+    and once more inside it"""
+    if levels <= 0 or rng.random() > (0.3 if levels == 2 else 0.35):
+        return plan
+    i = rng.randrange(len(plan) + 1)
+    j = rng.randrange(i, len(plan) + 1)
+    inner = wrap_blocks(rng, plan[i:j], levels - 1)
+    return plan[:i] + ['A'] + inner + ['Z'] + plan[j:]
 
 
 def plan_for(rng, nvalid, nfault, depth):
@@ -532,7 +632,9 @@ def build_case(rng, idx, nfault=None, opts=None, multi=None):
         c.opts = dict(opts)
         c.src = {k: 'cmd' for k in OPTS if c.opts[k]}
     c.mode = '+'.join(k for k in OPTS if c.opts[k]) or 'none'
-    b = Builder(rng, c.opts)
+    c.master = rng.choice(['Main', 'Household']) if (nfault is None and rng.random() < 0.1) else None
+    b = Builder(rng, c.opts, c.master)
+    b.base_depth = len(b.prefix)
     nroots = multi if multi is not None else (rng.choice([2, 2, 3]) if rng.random() < 0.06 else 1)
     c.roots = []
     for r in range(nroots):
@@ -617,7 +719,8 @@ def finish_case(c):
                 prev_faulty['last'] = e.last
                 last_item = prev_faulty
                 continue
-            it = dict(file=f.name, first=e.first, last=e.last, faults=list(e.faults), warns=list(e.warns), tag=e.tag)
+            it = dict(file=f.name, first=e.first, last=e.last, faults=list(e.faults), warns=list(e.warns), tag=e.tag,
+                      prefix=getattr(e, 'prefix', ''))
             c.items.append(it)
             last_item = it
             prev_faulty = it if e.faults else None
@@ -633,7 +736,7 @@ def finish_case(c):
         c.texts[f.name] = t
     c.nfaults = sum(1 for it in c.items if it['faults'])
     order = [k for k in OPTS if c.src.get(k) == 'cmd']
-    c.args = [FLAG[k] for k in order] + c.cmd
+    c.args = [FLAG[k] for k in order] + (['--master-account', c.master] if c.master else []) + c.cmd
     c.init = [FLAG[k] for k in OPTS if c.src.get(k) == 'init']
     c.env = {ENVV[k]: '1' for k in OPTS if c.src.get(k) == 'env'}
 
@@ -726,7 +829,12 @@ def invoke(cdir, files, roots, args, init, env):
     fargs = []
     for r in roots:
         fargs += ['-f', os.path.join(cdir, r)]
-    st, out, err = lib.run_ledger(pre + fargs + list(args), timeout=120, env=lib.ledger_env(env) if env else None)
+    for attempt in range(60):
+        st, out, err = lib.run_ledger(pre + fargs + list(args), timeout=120, env=lib.ledger_env(env) if env else None)
+        if st == 127 and b'error while loading shared libraries' in err:
+            time.sleep(2)          # the binary is being re-linked by a concurrent build: not an observation of ledger
+            continue
+        break
     return st, out, err.decode('utf-8', 'replace')
 
 
@@ -737,7 +845,7 @@ def run_case(ctx, c):
     base = None
     if c.nfaults == 0 and c.mode != 'none':
         # the same journal without any checking option: a valid journal's report must not depend on them
-        base = invoke(cdir, c.texts, roots, c.cmd, [], {})
+        base = invoke(cdir, c.texts, roots, (['--master-account', c.master] if c.master else []) + c.cmd, [], {})
     shutil.rmtree(cdir, ignore_errors=True)
     return st, out, err, cdir, base
 
@@ -852,7 +960,7 @@ def root_index_of(c):
 
 
 def case_record(c):
-    return dict(files=c.texts, roots=[r.name for r in c.roots], args=c.args, cmd=c.cmd, init=c.init, env=c.env,
+    return dict(files=c.texts, roots=[r.name for r in c.roots], args=c.args, cmd=(['--master-account', c.master] if c.master else []) + c.cmd, init=c.init, env=c.env,
                 opts=c.opts, items=c.items, mode=c.mode)
 
 
@@ -909,6 +1017,13 @@ def evaluate(ctx, res, cases, tagname):
         for k, v in c.src.items():
             res.count('option-source:' + v)
         res.count('faults:%s' % bucket(c.nfaults))
+        nblk = sum(1 for f in c.files for e in f.entries if e.tag == 'apply' and e.lines[0][0].startswith('apply account'))
+        res.count('apply-account-blocks:%s' % (nblk if nblk < 3 else '3+'))
+        if c.master:
+            res.count('master-account')
+        for it in c.items:
+            if it.get('prefix') and it['tag'] == 'xact':
+                res.count('transaction-inside-apply-account:%s' % ('invalid' if it['faults'] else 'valid'))
         res.count('files:%d' % len(c.files))
         res.count('roots:%d' % len(c.roots))
         for it in c.items:
@@ -959,7 +1074,9 @@ def run(ctx, n_override=None):
                 'whitespace-only lines) with faults injected first / last / adjacent / inside includes: unbalanced, 12 malformed dates, '
                 '10 malformed amounts, failed balance assertion / assert line, undeclared (misspelt) account / commodity / tag / payee, '
                 'malformed directives, stray indented lines, two faults in one transaction; plus journals with exactly 255, 256, 257, '
-                '300, 512 and random 100-300 faults; each journal is read under a subset of --strict --pedantic --permissive --check-payees '
+                '300, 512 and random 100-300 faults; `apply account ROOT` blocks (nested, around declarations and transactions, with includes inside) '
+                'and --master-account, with accounts declared inside the block, by full name outside it, or only under another prefix, and '
+                'commodity / tag / payee directives inside blocks as controls; each journal is read under a subset of --strict --pedantic --permissive --check-payees '
                 '(all 16 occur), each option given on the command line, in an init file or through LEDGER_* in the environment; '
                 'non-trivial = at least one injected fault, expected warning or include; distinct by options + shape')
     n = n_override or ctx.scale(2500, 20000)
